@@ -185,6 +185,12 @@ def compile_ir_to_sql_tree(
                 for param in ctx.env.query_params
                 if not param.sub_params
             }
+            # The "present" flag of an optional global with a default
+            # occupies a physical parameter slot of its own.
+            for glob in query_globals:
+                if glob.has_present_arg:
+                    present = ctx.argmap[glob.name + "present__"]
+                    detached_params_idx[present.index] = ('bool',)
         else:
             detached_params_idx = {}
         detached_params = [p for _, p in sorted(detached_params_idx.items())]
